@@ -28,6 +28,7 @@ VMap(id)  == [t |-> "map", id |-> id]
 VObj(id)  == [t |-> "obj", id |-> id]
 VFn(code, cap, this) == [t |-> "fn", code |-> code, cap |-> cap, this |-> this]
 VBound(o, m) == [t |-> "bound", o |-> o, m |-> m]   \* built-in method bound to a receiver
+VModule(n) == [t |-> "module", name |-> n]
 
 MaxI == 2147483647
 MinI == -2147483647 - 1
@@ -69,7 +70,9 @@ IRem(a, b) ==
 (* environments: own = block frames of the running activation (innermost last), *)
 (* cap = the flat name -> cell map the function value captured when it was made *)
 NoFrame == [n \in {} |-> 0]
+NoFrame2 == [n \in {} |-> [m \in {} |-> 0]]
 Bind(f, n, c) == [m \in DOMAIN f \cup {n} |-> IF m = n THEN c ELSE f[m]]
+Bind2(f, n) == [m \in DOMAIN f \cup {n} |-> IF m = n THEN [x \in {} |-> 0] ELSE f[m]]
 Env0 == [own |-> <<NoFrame>>, cap |-> NoFrame]
 
 RECURSIVE FindOwn(_, _, _)
@@ -127,7 +130,10 @@ Capture(f, env) == LET vis == Visible(env) fv == FVFn(f) \cap DOMAIN vis IN [n \
 (* state *)
 St0 == [cells |-> <<>>, lists |-> <<>>, maps |-> <<>>, objs |-> <<>>, out |-> <<>>,
         status |-> "ok", retv |-> VNil, hasret |-> FALSE, fuel |-> 4000, stack |-> <<"module">>,
-        ftrace |-> <<>>, log |-> <<>>]
+        ftrace |-> <<>>, log |-> <<>>,
+        mods |-> <<>>,        \* module sources of the program: Seq([name, body])
+        modinit |-> <<>>,     \* names of modules whose top-level code has started, in order
+        modexp |-> NoFrame2]  \* module name -> (export name -> cell id), filled while the module runs
 
 IsOk(st) == st.status = "ok"
 Failures == {"assert", "nil", "index", "key", "zerodiv", "overflow", "conversion", "range", "type", "fuel", "stack"}
@@ -221,7 +227,7 @@ BinOp(op, a, b, st) ==
 
 -----------------------------------------------------------------------------
 (* the evaluator *)
-RECURSIVE Eval(_, _, _), EvalSeq(_, _, _, _, _), Exec(_, _, _), ExecBlock(_, _, _, _),
+RECURSIVE Eval(_, _, _), EvalSeq(_, _, _, _, _), Exec(_, _, _), ExecBlock(_, _, _, _), ImportStmt(_, _, _),
           CallValue(_, _, _), WhileLoop(_, _, _, _), FromLoop(_, _, _, _, _, _), BindParams(_, _, _, _, _),
           Builtin(_, _, _, _), AssignTo(_, _, _, _)
 
@@ -288,6 +294,17 @@ Eval(e, env, st) ==
                          ELSE R(VStr(SubSeq(o.v.s, i.v.v + 1, i.v.v + 1)), i.st))
                 ELSE R(VNil, FailWith(i.st, "type"))
       [] e.k = "fn" -> R(VFn(e, Capture(e, env), 0), st)
+      [] e.k = "fld" ->
+           LET o == Eval(e.o, env, st) IN
+           IF ~IsOk(o.st) THEN o
+           ELSE IF o.v.t = "module" THEN
+                (IF e.n \in DOMAIN o.st.modexp[o.v.name] THEN R(o.st.cells[o.st.modexp[o.v.name][e.n]], o.st)
+                 ELSE R(VNil, FailWith(o.st, "type")))        \* not exported: the compiler must have rejected this
+           ELSE IF o.v.t = "obj" THEN
+                (IF e.n \in DOMAIN o.st.objs[o.v.id].fields THEN R(o.st.cells[o.st.objs[o.v.id].fields[e.n]], o.st)
+                 ELSE R(VNil, FailWith(o.st, "type")))
+           ELSE IF o.v.t = "nil" THEN R(VNil, FailWith(o.st, "nil"))
+           ELSE R(VNil, FailWith(o.st, "type"))
       [] e.k = "call" ->
            LET f == Eval(e.f, env, st) IN
            IF ~IsOk(f.st) THEN f
@@ -449,7 +466,13 @@ Exec(s, env, st) ==
            ELSE IF s.mod THEN
                 (LET c == IF s.n \in DOMAIN env.cap THEN env.cap[s.n] ELSE 0 IN
                  IF c = 0 THEN ER(env, FailWith(r.st, "type")) ELSE ER(env, SetCell(r.st, c, r.v)))
-           ELSE Store(r.env, r.st, s.n, r.v)
+           ELSE LET w == Store(r.env, r.st, s.n, r.v) IN
+                IF s.export /\ Len(w.st.modinit) > 0
+                THEN LET me == w.st.stack[Len(w.st.stack)]        \* "module:<name>" label of the running module
+                         nm == SubSeq(me, 8, Len(me)) IN
+                     ER(w.env, [w.st EXCEPT !.modexp[nm] = Bind(@, s.n, LookupOwn(w.env, s.n))])
+                ELSE w
+      [] s.k = "import" -> ImportStmt(s, env, st)
       [] s.k = "print" ->
            LET r == EvalB(s.e, env, st) IN
            IF ~IsOk(r.st) THEN ER(env, r.st) ELSE ER(r.env, Emit(r.st, Show(r.v, r.st, FALSE)))
@@ -522,6 +545,42 @@ AssignTo(s, env, st, dummy) ==
                   IF ~IsOk(b.st) THEN ER(env, b.st)
                   ELSE ER(env, [b.st EXCEPT !.lists[o.v.id][i.v.v + 1] = b.v])
     ELSE ER(env, FailWith(st, "type"))
+
+(* import m  /  import a, b from m : the first executed import of a module runs its top-level *)
+(* code to completion (its own environment, its own entry on the call stack) before the     *)
+(* importer continues; later imports find the same instance.  `import m` binds the module,  *)
+(* `import a, b from m` binds copies of the current values of the exported names.            *)
+ModIndex(st, nm) == LET S == {k \in 1..Len(st.mods) : st.mods[k].name = nm} IN IF S = {} THEN 0 ELSE CHOOSE k \in S : TRUE
+BaseName(path) == LET S == {k \in 1..Len(path) : SubSeq(path, k, k) = "/"} IN
+                  IF S = {} THEN path ELSE SubSeq(path, (CHOOSE k \in S : \A j \in S : j <= k) + 1, Len(path))
+RECURSIVE BindNames(_, _, _, _, _)
+BindNames(names, i, nm, env, st) ==
+    IF i > Len(names) THEN ER(env, st)
+    ELSE IF names[i] \notin DOMAIN st.modexp[nm] THEN ER(env, FailWith(st, "type"))
+    ELSE LET s2 == NewCell(st, st.cells[st.modexp[nm][names[i]]]) IN
+         BindNames(names, i + 1, nm, BindTop(env, names[i], LastCell(s2)), s2)
+ImportStmt(s, env, st) ==
+    LET nm == BaseName(s.path)
+        k == ModIndex(st, nm) IN
+    IF k = 0 THEN ER(env, FailWith(st, "type"))
+    ELSE LET s1 == IF \E j \in 1..Len(st.modinit) : st.modinit[j] = nm THEN st
+                   ELSE IF st.fuel <= 0 THEN FailWith(st, "fuel")
+                   ELSE LET s0 == [st EXCEPT !.modinit = Append(@, nm), !.modexp = Bind2(@, nm),
+                                             !.stack = Append(@, "module:" \o nm), !.fuel = @ - 1]
+                            r == ExecBlock(st.mods[k].body, 1, Env0, s0).st IN
+                        IF Failed(r) THEN r ELSE [r EXCEPT !.status = "ok", !.stack = st.stack] IN
+         IF ~IsOk(s1) THEN ER(env, s1)
+         ELSE IF s.form = "mod" THEN
+              LET s2 == NewCell(s1, VModule(nm)) IN ER(BindTop(env, nm, LastCell(s2)), s2)
+         ELSE BindNames(s.names, 1, nm, env, s1)
+
+(* run a multi-module program: mods[entry] is the program, the others are importable *)
+RunProject(p) ==
+    LET e == p.mods[p.entry]
+        s0 == [St0 EXCEPT !.mods = p.mods, !.modinit = <<e.name>>, !.modexp = Bind2(NoFrame2, e.name),
+                          !.stack = <<"module:" \o e.name>>]
+        r == ExecBlock(e.body, 1, Env0, s0).st IN
+    IF r.status \in {"return", "break", "continue"} THEN [r EXCEPT !.status = "ok"] ELSE r
 
 (* run a single-module program *)
 Run(prog) == LET r == ExecBlock(prog.body, 1, Env0, St0).st IN
